@@ -252,6 +252,16 @@ class SimFS:
             q = self.abs(p)
             self._mk_all(posixpath.dirname(q))
             self.files[q] = bytearray(data if isinstance(data, (bytes, bytearray)) else data.encode("latin-1"))
+        for q in self.files:
+            if q in self.dirs or any(a in self.files for a in self._ancestors(q)):
+                raise ValueError("inconsistent disk image: %r is both a file and a directory (or below a file)" % q)
+
+    def _ancestors(self, q):
+        out = []
+        while q != self.root and q:
+            q = posixpath.dirname(q)
+            out.append(q)
+        return out
 
     def _mk_all(self, q):
         while q and q != self.root and q not in self.dirs:
@@ -382,6 +392,10 @@ class SimFS:
         pre = q + "/"
         names = {x[len(pre):].split("/", 1)[0] for x in self.dirs if x.startswith(pre)}
         names |= {x[len(pre):].split("/", 1)[0] for x in self.files if x.startswith(pre)}
+        explicit = self.knobs.get("listing_explicit")
+        if explicit is not None:
+            order = explicit.get(self.rel(q) or ".", [])
+            return sorted(names, key=lambda n: (order.index(n) if n in order else len(order), n))
         key = self.knobs.get("listing_key")
         if key is None:
             return sorted(names)
